@@ -31,7 +31,7 @@ ASSUMPTIONS = [
     "strings outside both the stratified grammar and these categories (foreign characters, '()', '1 2', '!!1', truth values used as numbers) carry no claim",
     "character level: paths on which a concrete sub-expression is non-finite or complex (log of a negative, division by zero) carry no claim",
 ]
-OUTSIDE = ['free characters that are letters or underscore (exponent notation, inf/nan, misspelt function names)', 'free strings longer than 3 (quick) / 4 (thorough) characters; three or more simultaneous edits', '!!a and -!a (outside the stratified grammar)', 'log/log10/sqrt/sin/cos/tan/logb applied directly to a truth value such as sin(!0) (NumPy evaluates them in float16)', 'exponent-notation literals such as 1e-3', 'expressions with more operator occurrences than the bound']
+OUTSIDE = ['free characters that are letters or underscore (exponent notation, inf/nan, misspelt function names)', 'free strings longer than 3 (quick) / 4 (thorough) characters; three or more simultaneous edits', '!!a and -!a (outside the stratified grammar)', 'truth values used as numbers: functions, signs and + - * / ** applied directly to a comparison/negation result, e.g. sin(!0), -(a<b), (a<b)+(c<d) (NumPy and Python booleans behave differently there: float16 evaluation, -np.True_ raises, np.True_+np.True_ is True)', 'exponent-notation literals such as 1e-3', 'expressions with more operator occurrences than the bound']
 BOUNDS = {'quick': 'all skeletons of the stratified grammar over the full default operator table with <= 2 operator occurrences, 1500 sampled with 3, 300 with 4; 3 blank layouts; ill-formed single edits of 150 skeletons; character level: all strings of <= 3 free characters, one free character substituted/inserted at every position of 30 rendered texts (and all single deletions), 8 double substitutions',
           'thorough': 'all skeletons with <= 3 operator occurrences (32 822), 6000 sampled with 4, 1500 with 5-6 over class representatives; ill-formed single edits of 1500 skeletons; character level: all strings of <= 4 free characters, edits of 200 texts, 60 double substitutions'}
 EXHAUSTIVE = {'quick': False, 'thorough': False}
